@@ -15,6 +15,11 @@ import (
 
 type item struct{ Idx, W, V int }
 
+var (
+	sharedG   algz.Graph[int]
+	sharedOff int
+)
+
 func run(c *core.Case, st *core.CaseStats, seed int64) {
 	rep := func(fn, kind string, in, exp, act interface{}) {
 		st.Add(core.Mismatch{Fn: fn, Kind: kind, Case: c, Input: in, Expected: exp, Actual: act})
@@ -166,12 +171,20 @@ func run(c *core.Case, st *core.CaseStats, seed int64) {
 			st.Nontrivial++
 		}
 		for rep3 := 0; rep3 < 3; rep3++ {
-			var g algz.Graph[int]
+			var fresh algz.Graph[int]
+			g, off := &fresh, 0
+			if rep3 == 1 {
+				// one Graph value used for graph after graph (Init, rebuild, query): the vertices are named
+				// differently each time, so that nothing remembered from the previous graph can pass for current
+				sharedOff = 100 - sharedOff
+				g, off = &sharedG, sharedOff
+				g.Init(n)
+			}
 			for v := 1; v <= n; v++ {
-				g.AddNode(v)
+				g.AddNode(v + off)
 			}
 			for _, e := range edges {
-				g.AddUndirectedEdge(e/10, e%10)
+				g.AddUndirectedEdge(e/10+off, e%10+off)
 			}
 			var cs [][]int
 			if !guard("GetMaximalCliques", in, func() { cs = g.GetMaximalCliques() }) {
@@ -180,6 +193,9 @@ func run(c *core.Case, st *core.CaseStats, seed int64) {
 			got := map[string]int{}
 			for _, cl := range cs {
 				x := append([]int{}, cl...)
+				for i := range x {
+					x[i] -= off
+				}
 				sort.Ints(x)
 				got[fmt.Sprint(x)]++
 			}
